@@ -104,8 +104,10 @@ structure InstW where
   lastMissAt : Option Nat := none   -- the latest of them that was a periodic check finding no record
   lastCreateAt : Option Nat := none -- its latest Create call
   jitterSuspect : Option (Nat × String) := none  -- a Create that looks like a round without jitter; judged when the clock moves on
+  lastCutAt : Option Nat := none     -- the latest change of this instance's reachability (partition, healing, crash)
   spawns : List Nat := []            -- moments (of the last few seconds) at which an acquisition round or a single takeover attempt of this instance began
   spacingSuspect : Option (Nat × String) := none  -- two Creates of what can only be one round, closer than the smallest backoff; judged when the clock moves on
+  runCancelledAt : Option Nat := none  -- the application cancelled the context of the current run then (no Start since)
   claimDue : Option Nat := none      -- an acquiring write of this (running) instance was acknowledged: it reports leadership by then
   createDebtAt : Option Nat := none  -- a Create call that nothing accounted for when it was logged (the notification that caused it is logged after it, at the same instant)
   createCredit : Int := 0        -- Create calls still covered by what could have started them: one per accepted Start, four per
